@@ -13,7 +13,7 @@ LEVEL_TEXT = ("Exploration: every generated case drives two fresh instances thro
               "failing LoadDatabase in between) under two different switch vectors; after every call each stream's file bytes, string bytes and line accessors "
               "are compared with each other, a directory snapshot shows that disabled sinks created or touched nothing, error-string lines are located in the "
               "error file, and the selected-output tables of the two instances are compared to rel 1e-6. The 2^6 vectors over output/log/dump x file/string "
-              "are enumerated exhaustively on a fixed input pool. Three genuine deviations are excluded by construction and counted.")
+              "are enumerated exhaustively on a fixed input pool.")
 RULE = ("case = (user numbers, current number, custom/default file names, no-database flag, 1-3 run steps each with its own switch vector "
         "{output,log,dump,error} x {file,string} + ErrorOn + per-number selected-output file switch + common selected-output string switch, an alternative "
         "vector for the second instance, a call method and a generated 1-3 simulation input: speciation/reaction/equilibrium phases, unknown-element warnings, "
@@ -27,9 +27,8 @@ ASSUMPTIONS = ["std::getline semantics of a 'line': pieces between newlines, a t
                "renames the destination from the block on and persists (IPhreeqc.hpp, observed)",
                "DUMP -append true appends to file and to the dump string, -append false replaces both; the append setting persists, so every generated DUMP spells it out",
                "an unchanged (inode, size, mtime_ns, bytes) tuple means the file was not written during the call",
-               "excluded by construction and counted: mixed per-number selected-output string switches (known finding, DESIGN 9.1), PRINT -dump false (string still "
-               "receives the dump), output/log line views after a failed LoadDatabase while their string switch is on, redefinition of a SELECTED_OUTPUT number "
-               "after the first simulation of a call (file is truncated, C05)",
+               "excluded by construction and counted: mixed per-number selected-output string switches (known finding, DESIGN 9.1); not generated: redefinition of a "
+               "SELECTED_OUTPUT number after the first simulation of a call (the file is truncated at the redefinition, see C05) and a second DUMP -file destination inside one call",
                "planned errors are the only errors: a call whose return value disagrees with the plan is discarded"]
 FLOORS = {"quick": 300, "thorough": 3000}
 SHARDS = {"quick": 8, "thorough": 16}
@@ -165,35 +164,24 @@ def run_step(draw, j, nums, seen, db, prev_sw, excl, state):
         if lf is not None:
             P.append("KNOBS\n -logfile %s" % str(lf).lower())
         pr = []
-        for opt in ("echo_input", "selected_output", "headings", "user_print"):
-            val = draw(st.booleans()) if draw(st.integers(0, 5)) == 0 else None
-            if opt == "selected_output":
-                # PRINT -selected_output false in force when a call starts: the files of already defined user numbers are not
-                # opened but their strings receive the heading line (excluded by construction, see ASSUMPTIONS)
-                if k == 0 and seen and val is False:
-                    excl["selected_output_false_at_call_start"] += 1
-                    val = True
-                if k == 0 and val is None and state["punch_false"]:
-                    val = True
-                if val is not None:
-                    state["punch_false"] = not val
+        for opt in ("echo_input", "selected_output", "headings", "user_print", "dump"):
+            val = draw(st.booleans()) if draw(st.integers(0, 5 if opt != "dump" else 9)) == 0 else None
             if val is not None:
                 pr.append(" -%s %s" % (opt, str(val).lower()))
         if draw(st.integers(0, 9)) == 0:
             pr.append(" -warnings %d" % draw(st.sampled_from([0, 1, 100])))
-        if draw(st.integers(0, 11)) == 0:
-            excl["print_dump_false"] += 1          # PRINT -dump false: excluded by construction (see ASSUMPTIONS)
         if pr:
             P.append("PRINT\n" + "\n".join(pr))
-        sol = draw(cg.simple_solution(k + 1, elements=ELEMENTS, max_el=4))
+        num = 0 if draw(st.integers(0, 5)) == 0 else k + 1           # (user number 0 gives integer 0 cells in the soln column)
+        sol = draw(cg.simple_solution(num, elements=ELEMENTS, max_el=4))
         if draw(st.integers(0, 3)) == 0:
             sol["extra_lines"] = ["Xx 1"]          # unknown element -> warning
         P.append(cg.render_solution(sol))
         if draw(st.integers(0, 2)) == 0:
-            P.append("EQUILIBRIUM_PHASES %d\n Calcite 0 %s\n CO2(g) -2.5 1" % (k + 1, draw(st.sampled_from(["0", "0.01", "1"]))))
+            P.append("EQUILIBRIUM_PHASES %d\n Calcite 0 %s\n CO2(g) -2.5 1" % (num, draw(st.sampled_from(["0", "0.01", "1"]))))
         steps = draw(st.integers(0, 2))
         if steps:
-            P.append("REACTION %d\n NaCl 1\n %s moles in %d steps" % (k + 1, cg.fmt(draw(cg.logu(1e-5, 1e-2, 2))), steps))
+            P.append("REACTION %d\n NaCl 1\n %s moles in %d steps" % (num, cg.fmt(draw(cg.logu(1e-5, 1e-2, 2))), steps))
         if draw(st.integers(0, 4)) == 0:
             P.append('USER_PRINT\n -start\n 10 PRINT "user print", TOT("Na"), SIM_NO\n -end')
         for n in nums:
@@ -206,7 +194,7 @@ def run_step(draw, j, nums, seen, db, prev_sw, excl, state):
         #  to the old destination during this call: one dump destination per call)
         if draw(st.integers(0, 1 if j == 0 and k == 0 else 2)) == 0 or (dump_fileopt and k == 0):
             app = draw(st.booleans())
-            what = draw(st.sampled_from(["-all", "-solution %d" % (k + 1), "-solution 1 2 3\n -equilibrium_phases 1 2 3"]))
+            what = draw(st.sampled_from(["-all", "-solution %d" % num, "-solution 0 1 2 3\n -equilibrium_phases 0 1 2 3"]))
             P.append("DUMP\n%s %s\n -append %s" % ((" -file %s\n" % dump_fileopt) if dump_fileopt else "", what, str(app).lower()))
             dumps.append([k, app])
         if err_sim == k:
@@ -248,8 +236,8 @@ def case_strategy(draw):
     nodb = draw(st.integers(0, 24)) == 0
     nsteps = draw(st.integers(1, 3))
     steps, seen, db, prev = [], set(), not nodb, None
-    excl = {"print_dump_false": 0, "mixed_string_switch": 0, "selected_output_false_at_call_start": 0}
-    state = {"punch_false": False}
+    excl = {"mixed_string_switch": 0}
+    state = {}
     for j in range(nsteps):
         if j > 0 and draw(st.integers(0, 4)) == 0:
             ok = draw(st.booleans())
@@ -427,10 +415,7 @@ class Run:
         self.lines("warning", I.gets("GetWarningString"), where)
         for stream, key in (("output", "os"), ("log", "ls")):
             if sw and sw[key]:
-                if step["ok"] or self.case["meta"].get("strict_after_failed_load"):      # (strict only in the known-finding replay)
-                    self.lines(stream, I.gets("Get%sString" % CAP[stream]), where)
-                else:
-                    self.info["events"].append("excluded_stale_%s_lines_after_failed_load" % stream)
+                self.lines(stream, I.gets("Get%sString" % CAP[stream]), where)
         if sw and sw["ds"]:
             self.lines("dump", I.gets("GetDumpString"), where)
         self.info["classes"].add("load_ok" if step["ok"] else "load_failed_" + step["kind"])
@@ -711,7 +696,8 @@ def run(ctx):
                     ctx.extra["exhaustive_switch_vectors"] = ctx.extra.get("exhaustive_switch_vectors", 0) + 1
                 ctx.extra["exhaustive_cases"] = ctx.extra.get("exhaustive_cases", 0) + 1
             except Violation as e:
-                ctx.failures.append({"case": case, "oracle": e.oracle, "message": e.msg[:4000], "test": "enum"})
+                if sum(1 for f in ctx.failures if f["test"] == "enum") < 3:      # (each recorded failure is replayed 3x by the driver)
+                    ctx.failures.append({"case": case, "oracle": e.oracle, "message": e.msg[:4000], "test": "enum"})
             except Discard as e:
                 ctx.discard(e.why)
     ctx.hyp(case_strategy(), lambda c: check_case(c, ctx), BUDGET[ctx.tier], "seq")
